@@ -2974,7 +2974,9 @@ class quantized_po2(base_quantizer.BaseQuantizer):  # pylint: disable=invalid-na
             self.qnoise_factor.numpy() if isinstance(
                 self.qnoise_factor, tf.Variable) else self.qnoise_factor,
         "log2_rounding":
-            self.log2_rounding
+            self.log2_rounding,
+        "use_ste":
+            self.use_ste
     }
     return config
 
@@ -3148,7 +3150,9 @@ class quantized_relu_po2(base_quantizer.BaseQuantizer):  # pylint: disable=inval
             self.qnoise_factor.numpy() if isinstance(
                 self.qnoise_factor, tf.Variable) else self.qnoise_factor,
         "log2_rounding":
-            self.log2_rounding
+            self.log2_rounding,
+        "use_ste":
+            self.use_ste
     }
     return config
 
